@@ -98,6 +98,9 @@ func (g *G) arg(spec string, op string) string {
 	if s, ok := g.bigArg(codec, name, op); ok {
 		return s
 	}
+	if s, ok := g.bigFloatArg(codec, name, op); ok {
+		return s
+	}
 	switch codec {
 	case "Bool":
 		return sBool(g.chance(0.5))
